@@ -175,8 +175,8 @@ fn goldens() -> Vec<Golden> {
         // values that are themselves the tagged CBOR of an envelope (or carry the leaf tag): still leaves
         Golden { name: "CBOR of a leaf envelope", make: || Envelope::new(Envelope::new("x").to_cbor()), hex: "d8c8d8c96178" },
         Golden { name: "CBOR of a known-value envelope", make: || Envelope::new(Envelope::new(KnownValue::new(4)).to_cbor()), hex: "d8c804" },
-        Golden { name: "CBOR of an assertion envelope", make: || Envelope::new(Envelope::new_assertion("p", "o").to_cbor()), hex: "d8c8a16170616f" },
-        Golden { name: "CBOR of a node envelope", make: || Envelope::new(Envelope::new("s").add_assertion("p", "o").to_cbor()), hex: "d8c882d8c96173a16170616f" },
+        Golden { name: "CBOR of an assertion envelope", make: || Envelope::new(Envelope::new_assertion("p", "o").to_cbor()), hex: "d8c8a1d8c96170d8c9616f" },
+        Golden { name: "CBOR of a node envelope", make: || Envelope::new(Envelope::new("s").add_assertion("p", "o").to_cbor()), hex: "d8c882d8c96173a1d8c96170d8c9616f" },
         Golden { name: "CBOR of a wrapped envelope", make: || Envelope::new(Envelope::new("x").wrap_envelope().to_cbor()), hex: "d8c8d8c8d8c96178" },
         Golden { name: "value tagged #6.201", make: || Envelope::new(CBOR::to_tagged_value(201u64, "x")), hex: "d8c96178" },
         Golden { name: "value tagged #6.200 that is no envelope", make: || Envelope::new(CBOR::to_tagged_value(200u64, "x")), hex: "d8c86178" },
